@@ -23,11 +23,13 @@ let unhex s : bytes option =
     Some !r
   end
 
+let hex_tab = Array.init 256 (fun i -> Printf.sprintf "%02x" i)
 let hex_of (b : bytes) =
   match b with
   | [] -> "e"
   | _ -> let buf = Buffer.create 256 in
-    List.iter (fun x -> Buffer.add_string buf (Printf.sprintf "%02x" (int_of_n x))) b;
+    List.iter (fun x -> let i = int_of_n x in
+                Buffer.add_string buf (if i < 256 then hex_tab.(i) else Printf.sprintf "%02x" i)) b;
     Buffer.contents buf
 
 let hex_opt = function None -> "-" | Some b -> hex_of b
@@ -41,6 +43,7 @@ let err_name = function
   | EVersion -> "AOF_File_Unknown_Version"
   | ENoFile -> "nofile"
   | ENoDataFile -> "data_file_error"
+  | EFuel -> "model_fuel_exhausted"   (* never produced by the code: a loop of the model ran out of fuel *)
 
 let fname_of_string s =
   let pre = "append.aof." in
@@ -111,6 +114,10 @@ let () =
              if n >= 0 then image := dset !image f (firstn (nat_of_int n) (getb !master f)) in
            cut !wname (int_of_string t.(1));
            cut (datn !wname) (int_of_string t.(2));
+           print_endline "ok"
+         | "imagefull" ->
+           let cp f = image := ddel !image f; (match dget !master f with Some b -> image := dset !image f b | None -> ()) in
+           cp !wname; cp (datn !wname);
            print_endline "ok"
          | "put" ->
            image := dset !image (fname_of_string t.(1)) (unhex_b t.(2));
